@@ -275,7 +275,7 @@ theorem conc_short (hR : R I env code p st f) {n : Nat} (h : st.stack.length < n
 /-- **step_corr.** For every program, every symbolic state and every concrete frame related to it (stack within the
     EVM limit), the result of the symbolic dispatch step corresponds to the concrete step(s). -/
 theorem step_corr (hs : SimpSound s) (hI : I.Std) (hR : R I env code p st f) (hsat : Sat I st.path)
-    (hl : f.stack.length ≤ 1024) (hmem : cfg.maxMem + 32 ≤ p.memLimit) :
+    (hl : f.stack.length ≤ 1024) (hmem : cfg.maxMem + 32 ≤ p.memLimit) (hcode : ∀ b ∈ code, b < 256) :
     Corr I env code p w s o cfg st f (step s o cfg env code st) := by
   have hl' : ¬ f.stack.length > 1024 := by omega
   unfold step
@@ -513,6 +513,58 @@ theorem step_corr (hs : SimpSound s) (hI : I.Std) (hR : R I env code p st f) (hs
                   · exact Corr.stuck rfl
         · exact Corr.stuck rfl
     rw [if_neg hmop]
+    by_cases h37 : op = 0x37
+    · rw [if_pos h37]; subst h37
+      split
+      · rename_i hst
+        exact Corr.halt rfl (evm_copy_short (hR.hop hop) (Or.inl rfl) hl' (conc_short hR (by rw [hst]; simp)))
+      · rename_i lv r1 hst
+        split
+        · rename_i s1 loc h1
+          split
+          · exact Corr.halt rfl (evm_copy_short (hR.hop hop) (Or.inl rfl) hl' (conc_short hR (by rw [hst]; simp)))
+          · rename_i ov r2
+            split
+            · rename_i s2 off h2
+              split
+              · exact Corr.halt rfl (evm_copy_short (hR.hop hop) (Or.inl rfl) hl'
+                  (conc_short hR (by rw [hst]; simp)))
+              · rename_i sv rest
+                split
+                · rename_i s3 size h3
+                  exact corr_calldatacopy hs hR hsat hl hmem hop hst h1 h2 h3
+                · exact Corr.stuck rfl
+            · exact Corr.stuck rfl
+        · exact Corr.stuck rfl
+    rw [if_neg h37]
+    by_cases h39 : op = 0x39
+    · rw [if_pos h39]; subst h39
+      split
+      · rename_i hst
+        exact Corr.halt rfl (evm_copy_short (hR.hop hop) (Or.inr rfl) hl' (conc_short hR (by rw [hst]; simp)))
+      · rename_i lv r1 hst
+        split
+        · rename_i s1 loc h1
+          split
+          · exact Corr.halt rfl (evm_copy_short (hR.hop hop) (Or.inr rfl) hl' (conc_short hR (by rw [hst]; simp)))
+          · rename_i ov r2
+            split
+            · exact Corr.halt rfl (evm_copy_short (hR.hop hop) (Or.inr rfl) hl'
+                (conc_short hR (by rw [hst]; simp)))
+            · rename_i sv rest
+              split
+              · rename_i s3 size h3
+                split
+                · rename_i h0
+                  subst h0
+                  exact corr_codecopy_empty hs hR hsat hl hop hst h1 h3
+                · split
+                  · rename_i s2 off h2
+                    exact corr_codecopy hs hR hsat hl hmem hcode hop hst h1 h2 h3
+                  · exact Corr.stuck rfl
+              · exact Corr.stuck rfl
+        · exact Corr.stuck rfl
+    rw [if_neg h39]
     exact Corr.stuck rfl
 
 end
